@@ -154,6 +154,20 @@ Definition wf_locpair (c : lcfg) (x : lloc) : bool :=
 Definition enc_loc (c : lcfg) (xs : list lloc) : list byte :=
   concat (map (enc_locpair c) xs) ++ enc_addr c 0 ++ enc_addr c 0.
 
+(* ---- the encoding a unit's lists use: pairs up to DWARF 4, opcodes from DWARF 5 on; location lists of a
+   split-DWARF (.dwo) file use the opcodes in every version *)
+Definition rng_bare (c : lcfg) : bool := c_version c <=? 4.
+Definition loc_bare (c : lcfg) (dwo : bool) : bool := (c_version c <=? 4) && negb dwo.
+
+Definition enc_rng_list (c : lcfg) (es : list lent) : list byte :=
+  if rng_bare c then enc_ranges c es else enc_rnglist c es.
+Definition wf_rng (c : lcfg) (e : lent) : bool := if rng_bare c then wf_pair c e else wf_rle c e.
+
+Definition enc_loc_list (c : lcfg) (dwo : bool) (xs : list lloc) : list byte :=
+  if loc_bare c dwo then enc_loc c xs else enc_loclist c xs.
+Definition wf_loc (c : lcfg) (dwo : bool) (x : lloc) : bool :=
+  if loc_bare c dwo then wf_locpair c x else wf_lle c x.
+
 (* ------------------------------------------------------------------ tables *)
 
 (* value of the n bytes at offset off of a section, if they are all inside it *)
